@@ -10,7 +10,7 @@ CLONE=/var/tmp/repo-seeds.$$; OUT=/var/tmp/seedrun.$$
 rm -rf $CLONE $OUT; mkdir -p $OUT
 git clone -q /repo $CLONE || exit 2
 trap 'rm -rf $CLONE $OUT' EXIT
-seeds="$@"; [ -z "$seeds" ] && seeds=$(ls /verif/seeded)
+seeds="$@"; [ -z "$seeds" ] && seeds=$(ls -d /verif/seeded/*/ | xargs -n1 basename)
 miss=0
 for s in $seeds; do
   id=${s%%-*}
